@@ -523,6 +523,67 @@ def tget(v, i):
     return ("tget", v, i)
 
 
+def _concat(parts):
+    out = None
+    for p_ in parts:
+        if p_ == ("const", ""):
+            continue
+        out = p_ if out is None else ("op", "+", out, p_)
+    return out if out is not None else ("const", "")
+
+
+def _format_percent(fmt, args):
+    """'a%sb%s' % (x, y) as the concatenation the f-string f'a{x}b{y}' denotes (only %s / %d / %r / %%)."""
+    import re
+    pieces = re.split(r"(%[sdr%])", fmt)
+    if "%" in "".join(p for p in pieces if not re.fullmatch(r"%[sdr%]", p)):
+        return None
+    parts, k = [], 0
+    for p in pieces:
+        if p == "%%":
+            parts.append(("const", "%"))
+        elif p in ("%s", "%d", "%r"):
+            if k >= len(args):
+                return None
+            parts.append(("fn", "repr" if p == "%r" else "str", (args[k],)))
+            k += 1
+        elif p:
+            parts.append(("const", p))
+    return _concat(parts) if k == len(args) else None
+
+
+def _format_braces(fmt, args, kwargs):
+    """'a{}b{name}'.format(x, name=y) as a concatenation (plain / indexed / named fields without format spec)."""
+    import string
+    parts, auto = [], 0
+    try:
+        fields = list(string.Formatter().parse(fmt))
+    except ValueError:
+        return None
+    for lit, field, spec, conv in fields:
+        if lit:
+            parts.append(("const", lit))
+        if field is None:
+            continue
+        if spec or (conv not in (None, "s", "r")):
+            return None
+        if field == "":
+            if auto >= len(args):
+                return None
+            v = args[auto]
+            auto += 1
+        elif field.isdigit():
+            if int(field) >= len(args):
+                return None
+            v = args[int(field)]
+        elif field.isidentifier() and field in kwargs:
+            v = kwargs[field]
+        else:
+            return None
+        parts.append(("fn", "repr" if conv == "r" else "str", (v,)))
+    return _concat(parts)
+
+
 def subst(t, mapping):
     """Replace whole subterms according to `mapping` (term -> term)."""
     if isinstance(t, tuple):
@@ -768,6 +829,65 @@ class Summary:
         return self.module.path
 
 
+def _own_nodes(stmts):
+    """Nodes of the statements, not entering nested function / class definitions."""
+    todo = list(stmts)
+    while todo:
+        n = todo.pop()
+        yield n
+        for c in ast.iter_child_nodes(n):
+            if not isinstance(c, (ast.FunctionDef, ast.AsyncFunctionDef, ast.Lambda, ast.ClassDef)):
+                todo.append(c)
+
+
+def _loop_returns_to_breaks(loop, uid):
+    """[flag = False; value = None; loop'; if flag: return value] where every `return v` of the loop (also of
+    loops nested in it) sets the pair and breaks out of all loops up to this one."""
+    flag, val = f"_ds_rf{uid}", f"_ds_rv{uid}"
+
+    def name(n, store=False):
+        return ast.Name(id=n, ctx=ast.Store() if store else ast.Load())
+
+    def assign(n, value, like):
+        a = ast.Assign(targets=[name(n, True)], value=value, type_comment=None)
+        ast.copy_location(a, like)
+        ast.fix_missing_locations(a)
+        return a
+
+    class T(ast.NodeTransformer):
+        def visit_FunctionDef(self, n):
+            return n
+        visit_AsyncFunctionDef = visit_Lambda = visit_ClassDef = visit_FunctionDef
+
+        def visit_Return(self, n):
+            brk = ast.Break()
+            ast.copy_location(brk, n)
+            return [assign(val, n.value if n.value is not None else ast.Constant(value=None), n),
+                    assign(flag, ast.Constant(value=True), n), brk]
+
+        def _inner(self, n):
+            had = any(isinstance(x, ast.Return) for x in _own_nodes(n.body))
+            self.generic_visit(n)
+            n._ds_noreturn = True
+            if not had:
+                return n
+            brk = ast.Break()
+            test = ast.If(test=name(flag), body=[brk], orelse=[])
+            ast.copy_location(test, n)
+            ast.fix_missing_locations(test)
+            return [n, test]
+        visit_For = visit_While = _inner
+    new = copy.deepcopy(loop)
+    t = T()
+    new.body = [x for b in new.body for x in (lambda r: r if isinstance(r, list) else [r])(t.visit(b))]
+    new._ds_noreturn = True
+    ret = ast.Return(value=name(val))
+    tail = ast.If(test=name(flag), body=[ret], orelse=[])
+    ast.copy_location(tail, loop)
+    ast.fix_missing_locations(tail)
+    return [assign(flag, ast.Constant(value=False), loop), assign(val, ast.Constant(value=None), loop), new, tail]
+
+
 class _Bind(ast.stmt):
     """Synthetic statement of an unrolled loop: bind the loop target to one item of the display."""
     _fields = ()
@@ -987,6 +1107,14 @@ class Summariser:
                     ev, term, ret = self.block(stmts + list(rest))
                     events.extend(ev)
                     return events, term, ret
+            if isinstance(st, (ast.For, ast.While)) and not getattr(st, "_ds_noreturn", False) and \
+                    any(isinstance(n, ast.Return) for n in _own_nodes(st.body)):
+                # a loop that can return: the return becomes `value, flag = ..., True; break` (propagated out of
+                # nested loops) and the function returns after the loop when the flag is set
+                new_stmts = _loop_returns_to_breaks(st, self.ids.next())
+                ev, term, ret = self.block(new_stmts + list(rest))
+                events.extend(ev)
+                return events, term, ret
             if isinstance(st, ast.Return):
                 val = self.expr(st.value, events) if st.value is not None else ("const", None)
                 events.append(Return(val, st.lineno))
@@ -1430,6 +1558,13 @@ class Summariser:
                 return ("global", d)
             return attr_of(self._expr(e.value, events), e.attr)
         if isinstance(e, ast.BinOp):
+            if isinstance(e.op, ast.Mod) and isinstance(e.left, ast.Constant) and isinstance(e.left.value, str):
+                right = self._expr(e.right, events)
+                args = right[1] if right[0] == "tuple" and len(right) == 2 else (right,)
+                built = _format_percent(e.left.value, args)
+                if built is not None:
+                    return built
+                return ("op", "%", ("const", e.left.value), right)
             return ("op", BINOPS[type(e.op)], self._expr(e.left, events), self._expr(e.right, events))
         if isinstance(e, ast.UnaryOp):
             v = self._expr(e.operand, events)
@@ -1509,6 +1644,10 @@ class Summariser:
             return self.call(e, events)
         if isinstance(e, ast.Starred):
             return ("star", self._expr(e.value, events))
+        if isinstance(e, ast.NamedExpr) and isinstance(e.target, ast.Name):
+            v = self._expr(e.value, events)
+            self.env[e.target.id] = v
+            return v
         if isinstance(e, ast.Lambda):
             fn = ast.FunctionDef(name="<lambda>", args=e.args, body=[ast.Return(value=e.body)], decorator_list=[],
                                  returns=None, type_comment=None, type_params=[])
@@ -1595,6 +1734,13 @@ class Summariser:
 
     # -- calls -----------------------------------------------------------------------------------
     def call(self, e, events):
+        if isinstance(e.func, ast.Attribute) and e.func.attr == "format" and isinstance(e.func.value, ast.Constant) and \
+                isinstance(e.func.value.value, str) and not any(isinstance(a, ast.Starred) for a in e.args) and \
+                all(k.arg is not None for k in e.keywords):
+            built = _format_braces(e.func.value.value, [self._expr(a, events) for a in e.args],
+                                   {k.arg: self._expr(k.value, events) for k in e.keywords})
+            if built is not None:
+                return built
         args = tuple(self._expr(a, events) for a in e.args)
         kwargs = tuple((k.arg if k.arg is not None else "**", self._expr(k.value, events)) for k in e.keywords)
         f = e.func
